@@ -344,7 +344,8 @@ impl ToPrimitive for u64 {
     open spec fn as_real(&self) -> real { i2r(*self as int) }
     fn to_f64(&self) -> (r: Option<F>) { Some(ToF::to_f(*self)) }
 }
-/// R9.method: `.into()` is renamed `.vx_into()`; the three conversions the unit uses are listed here
+/// R9.method: `.into()` is renamed `.vx_into()`; the conversions the unit uses are listed here (the third one,
+/// `M::LogpErr -> BoxedErr`, is the bound on `Math::LogpErr`)
 /// (Verus cannot name std's `impl From<Vec<T, A>> for Box<[T], A>`: allocator_api is unstable)
 pub trait VxInto<T>: Sized {
     spec fn into_post(self, r: T) -> bool;
